@@ -7,6 +7,11 @@ A *scenario* is a list of script steps
                                             target=None | "meth" | "func"   the call is addressed to a bare callable of the
                                                 receiver (a bound method / a function handed out as a reference with a
                                                 negative clid: RemoteMethodReference) instead of a Referenceable,
+                                            target="bare"   the call is addressed to a second Referenceable of the receiver,
+                                                one that advertises no RemoteInterface (schema-less),
+                                            kind="raise", exc=<name in BODY_ERRORS>, how="raise"|"fail"   the method is entered
+                                                and its BODY then raises that exception (how="fail": returns an already
+                                                failed Deferred): an ordinary application error after the entry,
                                             inner=dict(at="copy"|"start"|"mid"|"resume"|"end", calls=[spec, ...])
                                                 further calls are issued from INSIDE the send-side serialization of this
                                                 call's argument (see HOOK_POSITIONS); spec["rev"] sends one of them in
@@ -52,9 +57,38 @@ class RIOrderC04(RemoteInterface):
         return Any()
 
 
-KINDS = ("plain", "slow", "gift", "early", "abort", "late", "local")
-# model fate codes
-FATE = {"plain": 0, "slow": 0, "gift": 1, "early": 2, "abort": 2, "late": 3}
+KINDS = ("plain", "slow", "raise", "gift", "early", "abort", "late", "local")
+# model fate codes ("raise": the method IS entered -- what its body does afterwards is not the call queue's business)
+FATE = {"plain": 0, "slow": 0, "raise": 0, "gift": 1, "early": 2, "abort": 2, "late": 3}
+
+
+def _violation():
+    raise tokens.Violation("the method body says: violation")
+
+
+def _remote_exc():
+    raise tokens.RemoteException(failure.Failure(RuntimeError("a call made by the method body failed")))
+
+
+# what the BODY of an entered method may raise: real operations that go wrong after the method got control (ordinary,
+# input-dependent application errors), plus foolscap's own exception classes raised by application code
+BODY_ERRORS = {
+    "TypeError": lambda: len(None),
+    "TypeError-call": lambda: (lambda a: a)(),            # a TypeError of the "missing argument" sort, raised INSIDE the body
+    "TypeError-kw": lambda: (lambda a=1: a)(nosuch=2),    # ... of the "unexpected keyword argument" sort
+    "ValueError": lambda: int("not-a-number"),
+    "AttributeError": lambda: None.nosuch,
+    "KeyError": lambda: {}["nosuch"],
+    "IndexError": lambda: [][3],
+    "ZeroDivisionError": lambda: 1 // 0,
+    "AssertionError": lambda: (_ for _ in ()).throw(AssertionError("body")),
+    "RuntimeError": lambda: (_ for _ in ()).throw(RuntimeError("body")),
+    "NotImplementedError": lambda: (_ for _ in ()).throw(NotImplementedError("body")),
+    "StopIteration": lambda: next(iter(())),
+    "Violation": _violation,
+    "RemoteException": _remote_exc,
+}
+BODY_ERROR_NAMES = tuple(sorted(BODY_ERRORS))
 
 
 class QTransport:
@@ -190,6 +224,18 @@ class Target(Referenceable):
         return self.world.method_body(self.d, cid, g)
 
 
+class BareTarget(Referenceable):
+    """a second Referenceable of the same receiver, reachable over the same connection, that advertises NO RemoteInterface:
+    calls to it carry no schema on either side (target="bare")"""
+
+    def __init__(self, world, d):
+        self.world = world
+        self.d = d
+
+    def remote_m(self, cid, a=None, x=None, g=None):
+        return self.world.method_body(self.d, cid, g)
+
+
 class Side:
     """sending half of one direction"""
 
@@ -263,6 +309,8 @@ class World:
         self.sides = [Side(), Side()]
         self.targets = [Target(self, 0), Target(self, 1)]       # targets[d] lives on the receiver of direction d
         self.rrefs = [self._export(self.B, self.A, self.targets[0]), self._export(self.A, self.B, self.targets[1])]
+        self.bare = [BareTarget(self, 0), BareTarget(self, 1)]   # schema-less Referenceables next to them (target="bare")
+        self.brefs = [self._export(self.B, self.A, self.bare[0], None), self._export(self.A, self.B, self.bare[1], None)]
         # bare callables of the receiver of direction d, handed out like CallableSlicer does (negative clid)
         self.callables = [self._callables(0), self._callables(1)]
         self.crefs = [{k: self._export_call(self.B, self.A, f) for k, f in sorted(self.callables[0].items())},
@@ -296,10 +344,10 @@ class World:
         q._turn = logged_turn          # instance attribute: every batch that runs, by whatever route, is one model Turn
 
     # -- plumbing ------------------------------------------------------
-    def _export(self, holder, user, target):
+    def _export(self, holder, user, target, iname=RIOrderC04.__remote_name__):
         tr = holder.getTrackerForMyReference(target.processUniqueID(), target)
         tr.send()
-        return user.getTrackerForYourReference(tr.clid, RIOrderC04.__remote_name__).getRef()
+        return user.getTrackerForYourReference(tr.clid, iname).getRef()
 
     def _callables(self, d):
         def func(cid, a=None, x=None, g=None):
@@ -382,7 +430,7 @@ class World:
         R.callFailed = callFailed
 
     def _cid_of(self, delivery):
-        if delivery.methodname == "m" and isinstance(delivery.obj, Target):
+        if delivery.methodname == "m" and isinstance(delivery.obj, (Target, BareTarget)):
             return cid_of_args(delivery.allargs.args, delivery.allargs.kwargs)
         if delivery.methodname is None and any(delivery.obj is f for cs in self.callables for f in cs.values()):
             return cid_of_args(delivery.allargs.args, delivery.allargs.kwargs)
@@ -396,6 +444,16 @@ class World:
             dd = defer.Deferred()
             self.slow[d][cid] = dd
             return dd
+        if isinstance(g, str) and g.split(":")[0] in ("raise", "fail"):
+            # the method has been entered; now its body goes wrong
+            how, name = g.split(":", 1)
+            if how == "fail":
+                try:
+                    BODY_ERRORS[name]()
+                except Exception:
+                    return defer.fail(failure.Failure())
+            BODY_ERRORS[name]()
+            raise RuntimeError("BODY_ERRORS[%r] did not raise" % name)
         return cid
 
     def entered_call(self, d, cid):
@@ -437,7 +495,7 @@ class World:
         elif stalls:
             kw["a"] = StallArg(side, stalls)
         # a bare callable has no schema: only the kinds that do not depend on one can be addressed to it
-        target = spec.get("target") if kind in ("plain", "slow", "gift", "abort") else None
+        target = spec.get("target") if kind in ("plain", "slow", "raise", "gift", "abort") else None
         useschema = False
         if kind == "gift":
             ng = 2 if (spec.get("gifts", 1) >= 2 and not stalls and not inner) else 1
@@ -459,6 +517,8 @@ class World:
                     S.c04_gift0.append(rr)
         elif kind == "slow":
             kw["g"] = "slow"
+        elif kind == "raise":
+            kw["g"] = "%s:%s" % (spec.get("how") or "raise", spec.get("exc") or "TypeError")
         elif kind == "early":
             kw["x"] = "not-an-int"
             if spec.get("body") == "long":
@@ -480,6 +540,9 @@ class World:
         if spec.get("reenter"):
             self.reenter[(d, cid)] = list(spec["reenter"])
         args = ()
+        ref = self.rrefs[d]
+        if target == "bare":
+            ref, target = self.brefs[d], None
         if target:
             # RemoteMethodReference.callRemote(**kwargs): no method name, keyword arguments only
             rr = self.crefs[d][target]
@@ -495,9 +558,9 @@ class World:
             if spec["pos"] == "all":
                 args += (kw.pop("g"),)
         if spec.get("only"):
-            self.rrefs[d].callRemoteOnly("m", *args, _useSchema=useschema, **kw)
+            ref.callRemoteOnly("m", *args, _useSchema=useschema, **kw)
         else:
-            dd = self.rrefs[d].callRemote("m", *args, _useSchema=useschema, **kw)
+            dd = ref.callRemote("m", *args, _useSchema=useschema, **kw)
             dd.addBoth(lambda r, cid=cid, d=d, kind=kind: self.results[d].setdefault((cid, kind), short(r)))
 
     def noise(self, what):
